@@ -165,7 +165,7 @@ def main(argv=None):
     print(
         "%s %s seed=%d: evaluations=%d distinct_nontrivial=%d excluded_known=%s wall=%.1fs -> %s"
         % (pid, args.tier, seed, cov["evaluations"], cov["distinct_nontrivial"],
-           dict(cov["excluded_known"]), doc["wall_s"], "VIOLATION" if rc else "ok")
+           dict(cov["excluded_known"]), doc["wall_s"], "VIOLATION" if rc else ("HARNESS-ERROR" if unconfirmed else "ok"))
     )
     if unconfirmed and rc == 0:
         return 2
